@@ -3,6 +3,7 @@ from contracts import formulas as F
 from contracts import core as K
 
 from contracts import wrappers as W
+from contracts import grammar as G_PF
 ID = "C02"
 LEVEL = "proof"
 TRUSTED = [
@@ -23,7 +24,7 @@ EXPLANATION = (
 def units(tier):
     return (([F.U_COUNT_ATOMS, F.U_ATOMS, F.U_MASS, F.U_CHARGE, F.U_MOLMASS, F.U_MASS_FRACTION,
             F.L_SUM_HOMOGENEOUS, F.L_FRACTIONS, F.L_CONCAT, F.U_ADD, F.U_ADD_BAD, F.U_IADD,
-            F.U_RMUL, F.U_RMUL_BAD, F.U_ION_MASS, K.L_ATOM_IDENTITY] + [F.U_IMMUTABLE_REC, F.L_DEN_CONGRUENCE, F.U_HILL_NOTATION, F.L_DEN_PERMUTATION] + F.U_FORMULA_KINDS + F.U_FORMULA_KINDS_NATURAL + F.U_FORMULA_OF_FORMULA + [F.U_HILL]) + [W.U_PKG[0]]) + [K.U_IONSET]
+            F.U_RMUL, F.U_RMUL_BAD, F.U_ION_MASS, K.L_ATOM_IDENTITY] + [F.U_IMMUTABLE_REC, F.L_DEN_CONGRUENCE, F.U_HILL_NOTATION, F.L_DEN_PERMUTATION] + F.U_FORMULA_KINDS + F.U_FORMULA_KINDS_NATURAL + F.U_FORMULA_OF_FORMULA + [F.U_HILL]) + [W.U_PKG[0]]) + [K.U_IONSET] + G_PF.U_PARSE_FORMULA
 
 
 def runner_tasks(tier):
